@@ -50,7 +50,7 @@ func ipamHistSystems(cloud bool) []*HistSys {
 	out = append(out, &HistSys{Class: wkClass{"dppoolu", ""}, Cfg: cfgTwoPools(cloud), NPods: 2, Replicas: 2, Ops: ops, PrefixName: "allbound", Prefix: bound})
 	// two pools that share one pod subnet (disjoint ranges, different node subnets), with restarts in the alphabet: which pool an
 	// allocated IP belongs to is decided again whenever the tables are rebuilt
-	opsR := map[string]bool{"restart": true}
+	opsR := map[string]bool{"restart": true, "reload": true}
 	for k, v := range ops {
 		opsR[k] = v
 	}
